@@ -151,7 +151,7 @@ def rwg_sign_rule(ctx):
     r = ctx.rule("RWG-SIGN", "edge function sign: +1 on a single-neighbour edge, +1/-1 on the two neighbours by `element == min(neighbours)` (antisymmetric)", 1)
     defs = roles.Defs(fn)
     rets = [s for s in fn.body if isinstance(s, ast.Return)]
-    ok, why, line = False, "multiplier array not found among the returned values", fn.lineno
+    ok, why, line = None, "multiplier array not found among the returned values", fn.lineno
     if len(rets) == 1 and isinstance(rets[0].value, ast.Tuple) and isinstance(rets[0].value.elts[-1], ast.Name):
         W = rets[0].value.elts[-1].id
         S = [s for s in roles.stores(fn.body, defs, lv=False) if isinstance(s.tnode, ast.Subscript) and unparse(s.tnode.value) == W]
